@@ -299,7 +299,13 @@ impl Property for C04 {
         let flat = flatten(&case.app);
         let router = match build_router(&case.app, None) {
             Built::Ok(r) => r,
-            Built::Refused(_) => {
+            Built::Refused(m) if !m.contains("Can't merge Ohkamis") => {
+                // (the generator keeps routes apart: see C01) a refusal of anything but meeting mounts turns away an application
+                obs.fail(format!("valid-configuration-refused:{}", crate::core::panic::stem(&m).chars().take(50).collect::<String>()), format!("the application was refused at build time: {m}"));
+                return;
+            }
+            Built::Refused(m) => {
+                obs.label_dyn(&format!("refusal:{}", crate::core::panic::stem(&m).chars().take(60).collect::<String>()));
                 obs.rejected_config = true;
                 return;
             }
